@@ -33,17 +33,53 @@ func vxH_C06_persistFault() {
 	K := vxNewKey(kl)
 	kb := vxKeyBytes(K)
 
+	// history before the faulty round: one small round, or a big round
+	// followed by a small one (so that a level-based PARTIAL compaction
+	// into the same file is reachable with CompactionAllow)
+	var old [][]vxEnt
+	bigHistory := vxChoose(2) == 1
+	fixed := func(kb byte, alphabet int) []vxEnt {
+		var e vxEnt
+		e.k.n, e.k.b[0] = 1, kb
+		e.op = vxNewOp(alphabet)
+		e.v.b[0] = vxU8()
+		e.v.n = vxIteInt(e.op == OperationDel, 0, 1)
+		return []vxEnt{e}
+	}
+	if bigHistory {
+		K.n, K.b[0] = 1, 'a' // fixed probe: the second round rewrites "a"
+		kb = vxKeyBytes(K)
+		var big []vxEnt
+		for _, kb := range []byte{'a', 'b', 'c', 'd'} {
+			var e vxEnt
+			e.op = OperationSet
+			e.k.n, e.k.b[0] = 1, kb
+			e.v.n, e.v.b[0] = 1, vxU8()
+			big = append(big, e)
+		}
+		s0, err0 := store.Persist(vxHigher(opts, big), StorePersistOptions{})
+		vxAssert("big-round-ok", err0 == nil)
+		s0.Close()
+		old = append(old, big)
+	}
 	first := vxNewEnts(1, kl, vl, vxOpsSet)
+	if bigHistory {
+		first = fixed('e', vxOpsSet)
+	}
 	s1, err := store.Persist(vxHigher(opts, first), StorePersistOptions{})
 	vxAssert("first-round-ok", err == nil)
 	s1.Close()
+	old = append(old, first)
 	before := fs.names()
 
 	second := vxNewEnts(1, kl, vl, vxOpsSetDel)
+	if bigHistory {
+		second = fixed('a', vxOpsSetDel)
+	}
 	po := StorePersistOptions{CompactionConcern: CompactionConcern(vxChoose(3))}
 	// fault window
 	fs.nops = 0
-	fs.failAt = vxChoose(14)
+	fs.failAt = vxChoose(16)
 	fs.failN = 1
 	if vxTier() == 1 {
 		fs.failN = 1 + vxChoose(2)
@@ -57,11 +93,13 @@ func vxH_C06_persistFault() {
 	fs.failAt = -1
 	vxObserveInt("fault-fired", fs.faulted)
 
-	all := [][]vxEnt{first, second}
-	old := [][]vxEnt{first}
+	var all [][]vxEnt
+	all = append(all, old...)
+	all = append(all, second)
 	cur, serr := store.Snapshot()
 	vxAssert("store-snapshot-ok", serr == nil)
 	got, gerr := cur.Get(kb, ReadOptions{})
+	vxObserveU64("partial-compactions", store.totCompactionsPartial)
 	if perr == nil {
 		vxReach("round-succeeded")
 		vxAssert("success-get-ok", gerr == nil)
